@@ -685,7 +685,7 @@ fn cmd_jobs(args: &[String]) {
     let stack: usize = std::env::var("RVDRIVE_STACK").ok().and_then(|s| s.parse().ok()).unwrap_or(1usize << 30);
     let stdin = std::io::stdin();
     let marker_path = args.iter().position(|a| a == "--marker").map(|i| args[i + 1].clone());
-    let step_timeout_ms: u64 = std::env::var("RVDRIVE_STEP_TIMEOUT_MS").ok().and_then(|s| s.parse().ok()).unwrap_or(10_000);
+    let step_timeout_ms: u64 = std::env::var("RVDRIVE_STEP_TIMEOUT_MS").ok().and_then(|s| s.parse().ok()).unwrap_or(30_000);
     // address-space limit: runaway allocation ends in an allocation-failure abort of this process only
     let mem: u64 = std::env::var("RVDRIVE_MEM").ok().and_then(|s| s.parse().ok()).unwrap_or(8u64 << 30);
     if mem > 0 && !cfg!(miri) {
